@@ -68,6 +68,15 @@ def describe(r: IntRangeExpr):
         back = ["ok", list(IntRangeExpr.from_str(text))]
     except BaseException as e:  # noqa: BLE001
         back = ["raise", exn_family(e)]
+    # indices far outside (too long to print, even): IndexError like any other index outside -len..len-1
+    for far in (10 ** 4400, -(10 ** 4400), 2 ** 63, -(2 ** 63) - 1):
+        try:
+            r[far]
+            return [vals, n, gets, toks, back, ["r[i] answered for an index far outside", str(far)[:12]]]
+        except IndexError:
+            pass
+        except BaseException as e:  # noqa: BLE001
+            return [vals, n, gets, toks, back, ["r[i] far outside raised", type(e).__name__]]
     # membership: `v in r` is true of exactly the iterated values (whatever __contains__ the class may define)
     valset = set(vals)
     lo, hi = (min(vals), max(vals)) if vals else (0, 0)
